@@ -59,6 +59,7 @@ func runCase(line []byte, out *json.Encoder) error {
 	if err := json.Unmarshal(line, &c); err != nil {
 		return err
 	}
+	hvlib.Begin(c.ID)
 	obs := ioObs{ID: c.ID, Modes: map[string]modeObs{}}
 	t, err := typeOf(c.T)
 	if err != nil {
